@@ -95,6 +95,10 @@ func BuildOwnerSign(ov *fdo.Voucher, ttl uint32, nonce protocol.Nonce, addrs []p
 
 var c06Attacks = []C06Plan{
 	{Attack: "honest"},
+	// the state backend of the rendezvous server fails one call during an honest
+	// TO0: an AcceptOwner reply implies that the blob was stored
+	{Attack: "store-error", KeyRole: "SetRVBlob"}, {Attack: "store-error", KeyRole: "NewToken"}, {Attack: "store-error", KeyRole: "SetTO0SignNonce"},
+	{Attack: "store-error", KeyRole: "TO0SignNonce"}, {Attack: "store-error", KeyRole: "InvalidateToken"},
 	{Attack: "forged-signer", KeyRole: "att1"}, {Attack: "forged-signer", KeyRole: "mfg"}, {Attack: "forged-signer", KeyRole: "owner3"}, {Attack: "forged-signer", KeyRole: "prev"},
 	{Attack: "forged-overwrite", KeyRole: "att1"},
 	{Attack: "control-builder"},
@@ -314,6 +318,47 @@ func c06Run(env *Env, pl *C06Plan, collect *[]byte) {
 			o.Violate("C06", "ttl-policy", "not-consulted", "policy callback never consulted")
 		}
 		o.Class = "honest-ok"
+		return
+
+	case "store-error":
+		rv := s.Nodes["rv"]
+		if rv.Sim == nil {
+			o.Class = "noop"
+			return
+		}
+		j0 := s.Journal.Len()
+		rv.Sim.FailAt[pl.KeyRole] = rv.Sim.Calls[pl.KeyRole] + 1
+		_, err := s.TO0(ctx, "owner1", "rv", guid, pl.TTL)
+		fired := rv.Sim.Calls[pl.KeyRole] >= rv.Sim.FailAt[pl.KeyRole]
+		delete(rv.Sim.FailAt, pl.KeyRole)
+		n, _ := rvBlobs(j0)
+		acked := false
+		for _, ev := range s.Net.Log {
+			if ev.Phase == "resp" && ev.RespType == 23 {
+				acked = true
+			}
+		}
+		if fired {
+			o.Nontrivial = true
+			o.Fault("store-error:" + pl.KeyRole)
+		}
+		o.Sample = map[string]any{"method": pl.KeyRole, "fired": fired, "acked": acked, "stored": n, "err": fmt.Sprint(err)}
+		for _, pr := range s.Net.Panics {
+			o.Violate("C06", "panic", pr.Frame, "panic at %s while the state backend failed %s", pr.Frame, pl.KeyRole)
+		}
+		if acked && n == 0 {
+			o.Class = "ACK-WITHOUT-BLOB"
+			o.Violate("C06", "acknowledged-but-not-stored", pl.KeyRole, "rendezvous server acknowledged the registration (23) although no blob was stored (%s failed)", pl.KeyRole)
+			return
+		}
+		if !acked && err == nil {
+			o.Violate("C06", "acknowledged-but-not-stored", "client|"+pl.KeyRole, "TO0 client reported success without an AcceptOwner reply")
+		}
+		if acked {
+			o.Class = "store-error-tolerated"
+		} else {
+			o.Class = "store-error-refused"
+		}
 		return
 
 	case "leaf":
